@@ -1,15 +1,15 @@
 SPECIFICATION Spec
-CONSTANTS N = 2
-  Walkers = {"resolve", "length", "xref", "pages", "outline", "nametree", "filters"}
-  MaxDepth = 4
+CONSTANTS N = 3
+  Walkers = {"filters"}
+  MaxDepth = 2
   MaxChain = 3
-  StackCap = 12
+  StackCap = 2
   G_SEEN = TRUE
   G_DEPTH = TRUE
   G_SCALAR = TRUE
   G_STMFIRST = TRUE
   G_CHAIN = TRUE
-  G_GLOBDEPTH = FALSE
+  G_GLOBDEPTH = TRUE
 INVARIANTS NoOverflow WorkBounded ChainBounded
 PROPERTY Termination
 CHECK_DEADLOCK FALSE
